@@ -30,21 +30,25 @@ def kindFx : Kind → Bool → Prop
 macro "bookm" : tactic =>
   `(tactic| (simp_all [bookM, convertCoinU, convertERC20U, Obs.flowDelta, Obs.add, Obs.neg, balObs, supplyObs, E] <;> (try omega)))
 
-theorem bookM_convertCoinU_same (d ct : Nat) (fx : Bool) (k : Kind) (hk : kindFx k fx) (s r n : Nat) :
-    (bookM d ct fx).flowDelta (convertCoinU k d ct (.user s) (.user r) n) = 0 := by
+theorem bookM_convertCoinU_same (d ct : Nat) (fx : Bool) (k : Kind) (hk : kindFx k fx) (s : Nat) (r : Addr) (n : Nat) :
+    (bookM d ct fx).flowDelta (convertCoinU k d ct (.user s) r n) = 0 := by
   cases k <;> cases fx <;> simp [kindFx] at hk <;> bookm
 
-theorem bookM_convertCoinU_other (d ct d' ct' : Nat) (fx : Bool) (k : Kind) (hd : d' ≠ d) (hc : ct' ≠ ct) (s r n : Nat) :
-    (bookM d ct fx).flowDelta (convertCoinU k d' ct' (.user s) (.user r) n) = 0 := by
+theorem bookM_convertCoinU_other (d ct d' ct' : Nat) (fx : Bool) (k : Kind) (hd : d' ≠ d) (hc : ct' ≠ ct) (s : Nat) (r : Addr)
+    (n : Nat) : (bookM d ct fx).flowDelta (convertCoinU k d' ct' (.user s) r n) = 0 := by
   have h1 : coinAsset d' ≠ coinAsset d := fun h => hd (coinAsset_inj h)
   cases k <;> cases fx <;> bookm
 
-theorem bookM_convertERC20U_same (d ct : Nat) (fx : Bool) (k : Kind) (hk : kindFx k fx) (s r n : Nat) :
-    (bookM d ct fx).flowDelta (convertERC20U k d ct (.user s) (.user r) n) = 0 := by
-  cases k <;> cases fx <;> simp [kindFx] at hk <;> bookm
+/-- ERC-20 → coin of the pair itself: balanced, unless the receiver of the coins is the pair's own escrow account — then
+the coins come straight back and the escrow exceeds the (reduced) supply by `n` (a donation) -/
+theorem bookM_convertERC20U_same (d ct : Nat) (fx : Bool) (k : Kind) (hk : kindFx k fx) (s : Nat) (r : Addr) (n : Nat) :
+    (bookM d ct fx).flowDelta (convertERC20U k d ct (.user s) r n) =
+      if r = (if fx then Addr.wfx else E) then (n : Int) else 0 := by
+  cases k <;> cases fx <;> simp [kindFx] at hk <;>
+    (by_cases hr : r = Addr.wfx <;> by_cases hr' : r = Addr.erc20Mod <;> bookm)
 
-theorem bookM_convertERC20U_other (d ct d' ct' : Nat) (fx : Bool) (k : Kind) (hd : d' ≠ d) (hc : ct' ≠ ct) (s r n : Nat) :
-    (bookM d ct fx).flowDelta (convertERC20U k d' ct' (.user s) (.user r) n) = 0 := by
+theorem bookM_convertERC20U_other (d ct d' ct' : Nat) (fx : Bool) (k : Kind) (hd : d' ≠ d) (hc : ct' ≠ ct) (s : Nat) (r : Addr)
+    (n : Nat) : (bookM d ct fx).flowDelta (convertERC20U k d' ct' (.user s) r n) = 0 := by
   have h1 : coinAsset d' ≠ coinAsset d := fun h => hd (coinAsset_inj h)
   cases k <;> cases fx <;> bookm
 
@@ -94,12 +98,19 @@ theorem bookM_convertDenomU (d ct : Nat) (fx : Bool) (k : Kind) (base : Nat) (al
 
 /-! ### index facts used by the step theorems -/
 
-theorem mintingEnabled_ok {s : UState} {o : Option Pair} {p : Pair} (h : mintingEnabled s o = .ok p) : o = some p := by
-  simp only [mintingEnabled] at h
-  split at h; · cases h
-  split at h; · cases h
-  split at h; · cases h
-  cases h; rfl
+theorem mintingEnabled_ok' {s : UState} {recv : Addr} {o : Option Pair} {p : Pair}
+    (h : mintingEnabled s recv o = .ok p) : o = some p ∧ blocked recv = false ∧ s.enable = true ∧ p.enabled = true := by
+  cases o with
+  | none =>
+    simp only [mintingEnabled, mintingEnabledG, codeGuards, List.findSome?, guardFails] at h
+    (repeat' split at h) <;> simp_all
+  | some q =>
+    cases he : s.enable <;> cases hq : q.enabled <;> cases hb : blocked recv <;>
+      simp [mintingEnabled, mintingEnabledG, codeGuards, List.findSome?, guardFails, he, hq, hb] at h
+    subst h; exact ⟨rfl, rfl, rfl, hq⟩
+
+theorem mintingEnabled_ok {s : UState} {recv : Addr} {o : Option Pair} {p : Pair}
+    (h : mintingEnabled s recv o = .ok p) : o = some p := (mintingEnabled_ok' h).1
 
 theorem pairByDenom_some {i : Idx} {d : Nat} {p : Pair} (h : pairByDenom i d = some p) :
     ∃ id, lookup d i.byDenom = some id ∧ lookup id i.pairs = some p := by
@@ -181,52 +192,99 @@ theorem stepU_idx_ok {s s' : UState} {op : IOp} (h : stepU s (.idx op) = .ok s')
   · rename_i i hi; cases h; exact ⟨i, hi, rfl⟩
   · cases h
 
+/-- what a successful `MsgConvertCoin` did: the pair registered for the message's denomination was found, the receiver is
+not a blocked address, and either the pair was removed (dead contract) or the pair's flow ran -/
+theorem stepU_convertCoin_ok (s s' : UState) (d u r n : Nat) (h : stepU s (.convertCoin d u r n) = .ok s') :
+    ∃ p, pairByDenom s.idx d = some p ∧ blocked (partyAddr r) = false ∧
+      ((s.dead.contains p.contract = true ∧ s' = { s with idx := removePair s.idx p }) ∨
+       (s.dead.contains p.contract = false ∧
+          ∃ L', runFlow (convertCoinU p.kind d p.contract (.user u) (partyAddr r) n) s.L = .ok L' ∧ s' = { s with L := L' })) := by
+  simp only [stepU] at h
+  split at h; · cases h
+  rename_i p hme
+  obtain ⟨h1, h2, _, _⟩ := mintingEnabled_ok' hme
+  refine ⟨p, h1, h2, ?_⟩
+  split at h
+  · rename_i hd; cases h; exact Or.inl ⟨hd, rfl⟩
+  · rename_i hd
+    split at h; · cases h
+    simp only [UState.withLedger] at h
+    split at h
+    · rename_i L' hr; cases h; exact Or.inr ⟨by simpa using hd, L', hr, rfl⟩
+    · cases h
+
+theorem stepU_convertERC20_ok (s s' : UState) (ct u r n : Nat) (h : stepU s (.convertERC20 ct u r n) = .ok s') :
+    ∃ p, pairByErc s.idx ct = some p ∧ blocked (partyAddr r) = false ∧
+      ((s.dead.contains p.contract = true ∧ s' = { s with idx := removePair s.idx p }) ∨
+       (s.dead.contains p.contract = false ∧
+          ∃ L', runFlow (convertERC20U p.kind p.denom p.contract (.user u) (partyAddr r) n) s.L = .ok L' ∧
+            s' = { s with L := L' })) := by
+  simp only [stepU] at h
+  split at h; · cases h
+  rename_i p hme
+  obtain ⟨h1, h2, _, _⟩ := mintingEnabled_ok' hme
+  refine ⟨p, h1, h2, ?_⟩
+  split at h
+  · rename_i hd; cases h; exact Or.inl ⟨hd, rfl⟩
+  · rename_i hd
+    simp only [UState.withLedger] at h
+    split at h
+    · rename_i L' hr; cases h; exact Or.inr ⟨by simpa using hd, L', hr, rfl⟩
+    · cases h
+
+/-- what a message adds to the book of the module-owned pair `(d, ct)` from outside the conversion itself: ERC-20 → coin
+of the pair with the pair's own escrow account (the WFX contract for the native coin) named as receiver — the coins come
+straight back (a donation to the escrow).  The erc20 module account cannot be named: it is a blocked address. -/
+def donationM (dead : List Nat) (d ct : Nat) : UOp → Int
+  | .convertERC20 ct' _ r n =>
+    if ct' = ct ∧ dead.contains ct = false ∧ partyAddr r = (if d = 0 then Addr.wfx else E) then (n : Int) else 0
+  | _ => 0
+
 /-! ### I_module, one message -/
 
-/-- every message of the erc20 module keeps the book of every registered module-owned pair -/
+/-- every message of the erc20 module keeps the book of every registered module-owned pair, up to donations -/
 theorem bookM_stepU (s s' : UState) (hi : IdxInv s.idx) (id : PairId) (p : Pair) (hp : lookup id s.idx.pairs = some p)
     (hext : p.external = false) (op : UOp) (h : stepU s op = .ok s') :
-    (bookM p.denom p.contract (decide (p.denom = 0))).val s'.L = (bookM p.denom p.contract (decide (p.denom = 0))).val s.L := by
+    (bookM p.denom p.contract (decide (p.denom = 0))).val s'.L =
+      (bookM p.denom p.contract (decide (p.denom = 0))).val s.L + donationM s.dead p.denom p.contract op := by
   obtain ⟨hid, hden, herc⟩ := hi.pairs_ok _ _ hp
   have hkind : kindFx p.kind (decide (p.denom = 0)) := by
     simp only [Pair.kind, hext, Bool.false_eq_true, ↓reduceIte]
     by_cases h0 : p.denom = 0 <;> simp [h0, kindFx]
   cases op with
   | convertCoin d u r n =>
-    simp only [stepU] at h
-    split at h; · cases h
-    rename_i p' hme
-    obtain ⟨id', hl', hp'⟩ := pairByDenom_some (mintingEnabled_ok hme)
+    obtain ⟨p', hpd, _, hcase⟩ := stepU_convertCoin_ok s s' d u r n h
+    obtain ⟨id', hl', hp'⟩ := pairByDenom_some hpd
     have hd' : p'.denom = d := by
       obtain ⟨q, hq, hqd⟩ := hi.byDenom_ok _ _ hl'
       rw [hp'] at hq; cases hq; exact hqd
-    split at h
-    · cases h; rfl
-    · simp only [UState.withLedger] at h
-      split at h
-      · rename_i L' hrun
-        cases h
-        rw [runFlow_obs (bookM_sound _ _ _) _ _ _ hrun]
-        rcases pairs_eq_or_disjoint hi hp hp' with ⟨_, rfl⟩ | ⟨hnd, hnc⟩
-        · rw [← hd', bookM_convertCoinU_same _ _ _ _ hkind]; omega
-        · rw [bookM_convertCoinU_other _ _ _ _ _ _ (hd' ▸ hnd) hnc]; omega
-      · cases h
+    simp only [donationM]
+    rcases hcase with ⟨_, rfl⟩ | ⟨_, L', hrun, rfl⟩
+    · simp
+    · rw [runFlow_obs (bookM_sound _ _ _) _ _ _ hrun]
+      rcases pairs_eq_or_disjoint hi hp hp' with ⟨_, rfl⟩ | ⟨hnd, hnc⟩
+      · rw [← hd', bookM_convertCoinU_same _ _ _ _ hkind]
+      · rw [bookM_convertCoinU_other _ _ _ _ _ _ (hd' ▸ hnd) hnc]
   | convertERC20 ct u r n =>
-    simp only [stepU] at h
-    split at h; · cases h
-    rename_i p' hme
-    obtain ⟨id', hl', hp'⟩ := pairByErc_some (mintingEnabled_ok hme)
-    split at h
-    · cases h; rfl
-    · simp only [UState.withLedger] at h
-      split at h
-      · rename_i L' hrun
-        cases h
-        rw [runFlow_obs (bookM_sound _ _ _) _ _ _ hrun]
-        rcases pairs_eq_or_disjoint hi hp hp' with ⟨_, rfl⟩ | ⟨hnd, hnc⟩
-        · rw [bookM_convertERC20U_same _ _ _ _ hkind]; omega
-        · rw [bookM_convertERC20U_other _ _ _ _ _ _ hnd hnc]; omega
-      · cases h
+    obtain ⟨p', hpe, _, hcase⟩ := stepU_convertERC20_ok s s' ct u r n h
+    obtain ⟨id', hl', hp'⟩ := pairByErc_some hpe
+    have hc' : p'.contract = ct := by
+      obtain ⟨q, hq, hqc⟩ := hi.byErc_ok _ _ hl'
+      rw [hp'] at hq; cases hq; exact hqc
+    simp only [donationM]
+    rcases pairs_eq_or_disjoint hi hp hp' with ⟨_, rfl⟩ | ⟨hnd, hnc⟩
+    · rcases hcase with ⟨hdead, rfl⟩ | ⟨hlive, L', hrun, rfl⟩
+      · have hd2 : ct ∈ s.dead := by simpa [hc'] using hdead
+        simp [hc', hd2]
+      · have hl2 : s.dead.contains ct = false := hc' ▸ hlive
+        have hl3 : ¬ ct ∈ s.dead := by simpa using hl2
+        rw [runFlow_obs (bookM_sound _ _ _) _ _ _ hrun, bookM_convertERC20U_same _ _ _ _ hkind]
+        by_cases h0 : p'.denom = 0 <;> simp [hc', hl3, h0]
+    · have : ¬ ct = p.contract := fun e => hnc (hc'.trans e)
+      rcases hcase with ⟨_, rfl⟩ | ⟨_, L', hrun, rfl⟩
+      · simp [this]
+      · rw [runFlow_obs (bookM_sound _ _ _) _ _ _ hrun, bookM_convertERC20U_other _ _ _ _ _ _ hnd hnc]
+        simp [this]
   | convertDenom d u r n tgt =>
     simp only [stepU] at h
     split at h; · cases h
@@ -252,7 +310,7 @@ theorem bookM_stepU (s s' : UState) (hi : IdxInv s.idx) (id : PairId) (p : Pair)
           simp only [denomMode, hext, Bool.false_eq_true, ↓reduceIte]
           by_cases h0 : p.denom = 0 <;> simp [h0, kindFx]
         rw [bookM_convertDenomU _ _ _ _ _ _ _ _ _ _ _ (fun e => hdst e.symm)]
-        · omega
+        · simp [donationM]
         · intro e
           have hb := hbase (by rw [e, hden]; rfl)
           exact ⟨hb.trans e, hsame (hb.trans e)⟩
@@ -266,8 +324,8 @@ theorem bookM_stepU (s s' : UState) (hi : IdxInv s.idx) (id : PairId) (p : Pair)
           · exact absurd hnil hne
       · cases h
   | idx iop =>
-    obtain ⟨i, _, rfl⟩ := stepU_idx_ok h; rfl
+    obtain ⟨i, _, rfl⟩ := stepU_idx_ok h; simp [donationM]
   | setEnable b =>
-    simp only [stepU] at h; cases h; rfl
+    simp only [stepU] at h; cases h; simp [donationM]
 
 end FxVerif.Proofs.C08
